@@ -49,7 +49,7 @@ type fuzzInput struct {
 // exprFragments x exprPositions: every kind of expression in every place an expression can stand.
 var exprFragments = []string{"count(*)", "count(n)", "count(distinct n.a)", "n.a[0]", "n.a[1..2]", "case when n.x = 1 then 2 else 3 end", "[x in n.l | x]", "[x in n.l where x > 1]",
 	"all(x in n.l where x = 1)", "exists((n)-->())", "exists(n.x)", "shortestPath((n)-[*]->(m))", "{a: 1, b: [2]}", "$p", "-1", "not n.x", "n:A", "n.x in [1, 2]",
-	"n.s starts with 'a'", "1 + 2 * 3", "reduce(a = 0, x in [1] | a + x)", "(n)-->()", "n.x is not null", "coalesce(n.a, n.b)", "toLower(n.s) =~ 'a.*'", "id(n)", "null", "true", "'s'", "1.5", "n"}
+	"n.s starts with 'a'", "1 + 2 * 3", "$", "$1", "$limit", "n.x = $", "reduce(a = 0, x in [1] | a + x)", "(n)-->()", "n.x is not null", "coalesce(n.a, n.b)", "toLower(n.s) =~ 'a.*'", "id(n)", "null", "true", "'s'", "1.5", "n"}
 var exprPositions = []string{"match (n) where %s return n", "match (n) return %s", "match (n) return n order by %s", "match (n) return n order by n.a, %s desc", "match (n) return n skip %s",
 	"match (n) return n limit %s", "match (n) with %s as x return x", "unwind %s as x return x", "match (n) set n.x = %s", "match (n) return [%s, 1]", "match (n) return {k: %s}",
 	"match (n) return size(%s)", "match (n {p: %s}) return n", "match (n) delete %s", "return %s", "match (n) where n.y = 1 and %s or n.z = 2 return n", "match (n)-[r:E {w: %s}]->() return r",
@@ -85,12 +85,23 @@ func fuzzInputs(rng *rand.Rand, perText int, deep bool) []fuzzInput {
 			in = append(in, fuzzInput{text: strings.ReplaceAll(pos, "%s", num), class: "unrepresentable-number", unrep: true})
 		}
 	}
+	// characters and fragments no token of the grammar can start with or finish: wherever they stand in an otherwise
+	// valid query, the query is not a sentence of the grammar and has to be rejected (a lexer error is an error too)
+	for qi, q := range []string{"match (n) return n", "match (n) where n.x = 1 return n.y order by n.z limit 3", "match (a)-[r:E]->(b) return a, r, b"} {
+		toks := tokens(q)
+		for gi, g := range []string{"'abc", "\"abc", "`abc", "#", "?", "!", "\xff", "\x00", "~", "\\", "'unterminated \\'", "\u00a7"} {
+			in = append(in, fuzzInput{text: q + " " + g, class: "lexical-garbage", unrep: true})
+			in = append(in, fuzzInput{text: q + g, class: "lexical-garbage", unrep: true})
+			i := 1 + (qi+gi)%(len(toks)-1)
+			in = append(in, fuzzInput{text: strings.Join(toks[:i], " ") + " " + g + " " + strings.Join(toks[i:], " "), class: "lexical-garbage", unrep: true})
+		}
+	}
 	for fi, frag := range exprFragments {
 		for pi, pos := range exprPositions {
 			text := strings.ReplaceAll(pos, "%s", frag)
 			add(text, "expr-position")
 			if perText > 0 {
-				delims := []string{"(", ")", "[", "]", "{", "}", "'", ",", "|", "*"}
+				delims := []string{"(", ")", "[", "]", "{", "}", "'", ",", "|", "*", "$"}
 				if !deep {
 					delims = []string{delims[(fi+pi)%len(delims)], delims[(fi*3+pi+1)%len(delims)]}
 				}
